@@ -85,7 +85,7 @@ type confT struct {
 	HInit uint32
 	P     uint32
 	Mode  string // mpt | items
-	Order string // lo | hi | dfs | rdfs
+	Order string // lo | hi | dfs | rdfs | bfs
 	Trust uint32 // index of the TrustedHeader of the syncing node (0: none)
 	prof  profT
 	trie  *trieT
@@ -348,6 +348,11 @@ func (c *confT) pick(u []util.Uint256) util.Uint256 {
 			}
 		case "rdfs":
 			if c.trie.Pre[h] > c.trie.Pre[best] {
+				best = h
+			}
+		case "bfs": // level by level: all parents of a level before any node of the next
+			dh, db := c.trie.Depth[h], c.trie.Depth[best]
+			if dh < db || (dh == db && c.trie.Pre[h] < c.trie.Pre[best]) {
 				best = h
 			}
 		}
